@@ -13,7 +13,7 @@ const built = build()
 const backend = await import('./stubs/backend.mjs')
 const realIndex = await import(built.files.index)
 const realPgw = await import(built.files.proc_gen_wrapper)
-const { ShadowRoot, SlotMode, TextNode, setDiagSink } = backend
+const { ShadowRoot, SlotMode, TextNode, StubComponent, setDiagSink, setSlotEpoch } = backend
 const engine = new realIndex.GlassEaselTemplateEngine()
 if (typeof realPgw.ProcGenWrapper !== 'function') throw new Error('ProcGenWrapper not exported by the real runtime')
 
@@ -138,6 +138,13 @@ const dumpNode = (node, opts, out) => {
     })
   }
   if (node.modelPaths.size) o.modelPaths = mapToObj(node.modelPaths)
+  if (node instanceof StubComponent) {
+    o.comp = true
+    if (node.props.size) o.props = mapToObj(node.props)
+    // a property change still queued after a step was never applied to the component
+    if (node.pending.length) o.pending = node.pending.map(([k, v]) => [k, encode(v)])
+    if (node.externalClasses.size) o.extClasses = mapToObj(node.externalClasses)
+  }
   const args = node._$wxTmplArgs
   if (args && args.changeProp && nonEmpty(args.changeProp)) {
     const cp = Object.create(null)
@@ -240,7 +247,7 @@ const doRender = (req, snapshots) => {
   // Only the two places where the generator reads V and W are rewritten.
   let genSrc = req.gen_groups
   if (req.slotValues) {
-    genSrc = genSrc.split('X(V)[').join('X(V||$$SV)[').split('?!0:W[').join('?!0:(W||$$SW)[')
+    genSrc = genSrc.split('X(V)[').join('X(V||$$SV)[').split('?!0:X(W)[').join('?!0:X(W||$$SW)[')
     genSrc = `(()=>{var $$SV=new Proxy({},{get:(t,k)=>typeof k==='string'?'SV:'+k:undefined}),$$SW=new Proxy({},{get:()=>false});return ${genSrc}})()`
   }
   const script = compile(`${strictPrefix(req.strict)}${genSrc}`, 'gen_groups')
@@ -250,7 +257,16 @@ const doRender = (req, snapshots) => {
   if (typeof group !== 'function') throw new Error(`no template group for path ${JSON.stringify(path)}`)
   if (typeof group(name) !== 'function') throw new Error(`no template named ${JSON.stringify(name)} in ${JSON.stringify(path)}`)
 
-  const sr = new ShadowRoot(req.dynamicSlots ? SlotMode.Dynamic : SlotMode.Single)
+  // `cmp-…` tags are stub components unless "components": false; "epoch" selects the slot values their dynamic slots hand out
+  setSlotEpoch(0)
+  const sr = new ShadowRoot(req.dynamicSlots ? SlotMode.Dynamic : SlotMode.Single, req.components !== false)
+  const eachComponent = (elem, f) => {
+    for (const c of elem.childNodes.slice()) {
+      if (c instanceof TextNode) continue
+      if (c instanceof StubComponent) f(c)
+      eachComponent(c, f)
+    }
+  }
   const content = name === '' ? group : (n) => group(n === '' ? name : n)
   const instance = makeInstance(content, G, updateMode, req.fallbackListener, sr)
   const pgw = instance.procGenWrapper
@@ -268,6 +284,7 @@ const doRender = (req, snapshots) => {
       if ('create' in step) {
         if (created) throw new Error(`step ${i}: "create" must be the first step and appear once`)
         created = true
+        if (typeof step.epoch === 'number') setSlotEpoch(step.epoch)
         instance.initValues(decode(step.create))
         B = instance.bindingMapGen
       } else if (!created) {
@@ -291,10 +308,14 @@ const doRender = (req, snapshots) => {
           delete pgw.update
         }
         ret = seen ? { via: 'tree', U: encode(tree) } : { via: 'bindingMap' }
+      } else if ('slotEpoch' in step) {
+        // the components' own templates change the values they hand to their slots
+        setSlotEpoch(step.slotEpoch)
+        eachComponent(sr, (c) => c.getShadowRoot().moveToEpoch(step.slotEpoch))
       } else if ('bindmap' in step) {
         ret = pgw.bindingMapUpdate(String(step.bindmap), decode(step.D), B)
       } else {
-        throw new Error(`step ${i}: expected one of "create", "update", "changes", "bindmap"`)
+        throw new Error(`step ${i}: expected one of "create", "update", "changes", "bindmap", "slotEpoch"`)
       }
     } finally {
       setDiagSink(null)
@@ -391,6 +412,39 @@ const opPathTree = (req) => {
   return { U: encode(guarded(() => buildPathTree(changes), timeoutOf(req))) }
 }
 
+// ---- the real RangeListManager on its own: which node each new item gets and what it is told -----------------
+const realRld = await import(built.files.range_list_diff)
+const opRlm = (req) => {
+  const keyName = req.keyName === undefined ? null : req.keyName
+  const sr = new ShadowRoot(SlotMode.Single)
+  const elem = sr.createVirtualNode('virtual')
+  let created = 0
+  const ids = new Map()
+  const mk = () => {
+    const n = sr.createVirtualNode('virtual')
+    ids.set(n, created)
+    created += 1
+    return n
+  }
+  const oldList = decode(req.old)
+  const newList = decode(req.new)
+  const rlm = new realRld.RangeListManager(keyName, oldList, elem, sr, () => mk())
+  const oldCount = created
+  const calls = []
+  const tree = decode(req.tree, { nullProto: true })
+  rlm.diff(
+    newList,
+    tree,
+    elem,
+    () => mk(),
+    (item, index, u, indexChanged, node) => {
+      calls.push({ index, mark: u === true ? 'all' : u === undefined ? 'none' : 'sub', sub: u === true || u === undefined ? null : encode(u), indexChanged, node: node ? ids.get(node) : null })
+    },
+  )
+  // final children: the creation number of each node (numbers below oldCount are nodes of the old list, by old position)
+  return { oldCount, children: elem.childNodes.map((n) => ids.get(n)), calls }
+}
+
 const handle = (req) => {
   if (req === null || typeof req !== 'object' || Array.isArray(req)) throw new Error('request must be a JSON object')
   switch (req.op) {
@@ -406,6 +460,8 @@ const handle = (req) => {
       return opEvalGen(req)
     case 'pathtree':
       return opPathTree(req)
+    case 'rlm':
+      return opRlm(req)
     default:
       throw new Error(`unknown op ${JSON.stringify(req.op)}`)
   }
